@@ -262,6 +262,9 @@ def _call(t, c):
             if "S5b" in c.fences:
                 c.notes.add("excluded-by-known-finding-S5b")
                 return U
+        if name != "indexof" and ("%" in n or "_" in n) and "A3" in c.fences:
+            c.notes.add("excluded-by-known-finding-A3")
+            return U
         if name == "contains":
             return n in h
         if name == "startswith":
